@@ -94,7 +94,63 @@ TBlock ==
         /\ lastRoot' = IF T.out.err = "" THEN T.out.root ELSE lastRoot
   /\ UNCHANGED R
 
-TraceNext == TReset \/ TBlock
+(* ------------------------------------------------------------------ builder and admission (C02, C07, C09, C10) *)
+ResDiag(tag, exp, out) ==
+  IF Len(out.results) # Len(exp.results) THEN {tag \o "result-count"}
+  ELSE UNION { (IF out.results[i].ok # exp.results[i].ok THEN {tag \o "success-flag"} ELSE {}) \cup
+               (IF out.results[i].outputs # exp.results[i].outputs THEN {tag \o "outputs"} ELSE {}) \cup
+               (IF out.results[i].units # exp.results[i].units THEN {tag \o "units"} ELSE {}) \cup
+               (IF out.results[i].fee # exp.results[i].fee THEN {tag \o "fee"} ELSE {}) : i \in DOMAIN exp.results }
+PostDiag(tag, exp, out) ==
+  (IF ~SameMap(out.post.kv, exp.st.kv) THEN {tag \o "post-state"} ELSE {}) \cup
+  (IF ~SameMap(out.post.bal, exp.st.bal) THEN {tag \o "post-balances"} ELSE {}) \cup
+  (IF out.consumed # exp.consumed THEN {tag \o "units-consumed"} ELSE {})
+SeqSet(s) == {s[i] : i \in DOMAIN s}
+
+TBuild ==
+  /\ Ev("build")
+  /\ IF T.builderr # ""
+       THEN /\ diag' = (IF T.builderr \notin {"no-txs", "too-early"} THEN {"build-failed"} ELSE {})
+            /\ UNCHANGED st
+       ELSE LET exp == RunBlock(st, T.hdr, T.txs, T.prices, R)
+                om  == IF exp.valid THEN ExpOverMax(exp, T.txs) ELSE {}
+            IN /\ diag' =
+                    (IF ~exp.valid THEN {"built-block-is-invalid"} ELSE
+                       ResDiag("build-", exp, T.bout) \cup PostDiag("build-", exp, T.bout) \cup
+                       (IF T.vout.err # "" THEN {"verification-rejected-built-block"}
+                        ELSE ResDiag("verify-", exp, T.vout) \cup PostDiag("verify-", exp, T.vout) \cup
+                             (IF ~T.sameroot THEN {"post-state-root-differs"} ELSE {}) \cup
+                             (IF T.vout.prices # T.bout.prices THEN {"unit-prices-differ"} ELSE {}))) \cup
+                    (IF ~(SeqSet(T.built) \subseteq SeqSet(T.poolids)) THEN {"built-tx-not-from-mempool"} ELSE {}) \cup
+                    (IF Cardinality(SeqSet(T.built)) # Len(T.built) THEN {"tx-twice-in-built-block"} ELSE {}) \cup
+                    (IF SeqSet(T.built) \cap SeqSet(T.ancestors) # {} THEN {"builder-included-replay"} ELSE {})
+               /\ (om # {} => PrintT(<<"KF_HIT", "C07-fee-above-maxfee-at-build", l>>))
+               /\ st' = IF exp.valid /\ T.vout.err = "" THEN exp.st ELSE st
+  /\ UNCHANGED <<R, lastBid, lastRoot>>
+
+(* admission (PreExecutor.PreExecute reads the wall clock): the call happened between T.now and T.now + 1500 ms *)
+Admissible(tx, t) == PreVerdict(tx, t, R) = ""
+TAdmit ==
+  /\ Ev("admit")
+  /\ LET tx == T.tx
+         okEarly == Admissible(tx, T.now)
+         okLate  == Admissible(tx, T.now + 1500)
+         reasons == (~okEarly \/ ~okLate) \/ T.repeat \/ T.fee > T.funds \/ T.fee > tx.maxfee \/ tx.badsig
+     IN /\ diag' = (IF T.res = "" /\ ~okEarly /\ ~okLate THEN {"admitted-inadmissible-transaction"} ELSE {}) \cup
+                   (IF T.res = "" /\ T.repeat THEN {"admitted-replay"} ELSE {}) \cup
+                   (IF T.res = "" /\ T.fee > T.funds THEN {"admitted-underfunded"} ELSE {}) \cup
+                   (IF T.res # "" /\ ~reasons THEN {"admissible-transaction-refused"} ELSE {})
+        /\ ((T.res = "" /\ T.fee > tx.maxfee) => PrintT(<<"KF_HIT", "C07-fee-above-maxfee-at-submit", l>>))
+  /\ UNCHANGED <<st, R, lastBid, lastRoot>>
+
+(* C09 at the verification gate: a child repeating a transaction of its (accepted, in-window) parent *)
+TReplay ==
+  /\ Ev("replay")
+  /\ diag' = (IF T.err = "" THEN {"block-repeating-ancestor-transaction-verified"} ELSE {}) \cup
+              (IF T.err \notin {"", "duplicate"} /\ ~T.expired THEN {"replay-rejected-for-another-reason"} ELSE {})
+  /\ UNCHANGED <<st, R, lastBid, lastRoot>>
+
+TraceNext == TReset \/ TBlock \/ TBuild \/ TAdmit \/ TReplay
 TraceSpec == TraceInit /\ [][TraceNext]_tvars
 
 DiagEmpty == diag = {}
